@@ -10,7 +10,7 @@ META = {
             "properties: every result of an input-reading rule is stored at the evaluation time under the rule's name and labels; b = a records "
             "exactly what an `a` rule placed earlier in the same group stored at this timestamp; every series of the previous successful "
             "evaluation gets a sample (value or marker) at this one; nothing else is written; no live series is ever orphaned by a reload "
-            "(with the KF-C45-1 disjunct) and removed groups mark their series at the time of the stop. Class-directed and random behaviours are "
+            "and removed groups -- also those removed before their first evaluation slot (KF-C45-1, fixed) -- mark their series at the time of the stop. Class-directed and random behaviours are "
             "replayed through the real Manager.Update (rule files), Group.Eval, the real engine and a real head; the samples stored at each "
             "evaluation / cleanup time are compared with the prediction.",
     "note": "Bounded: 2 groups, 3 rule kinds (a=m, b=a, c=m with a rule label; duplicates, reordering, moves between groups in 7 configurations), "
@@ -46,8 +46,9 @@ def run(ctx):
     behs = mc.emitted + sim.emitted
     if not behs:
         raise vlib.Infra("no behaviours emitted")
-    # put the behaviours that exhibit KF-C45-1 first: the harness confirms it on the first three (slow: waits two intervals)
-    behs.sort(key=lambda b: 0 if any(s.get("orphaned") for s in b) else 1)
+    # behaviours that remove a group before its first slot first: the harness runs the first six of them with a 300 ms
+    # interval so that the removal certainly precedes the slot (regression guard for KF-C45-1)
+    behs.sort(key=lambda b: 0 if any(s.get("unstarted") for s in b) else 1)
     ctx.samples = [behs[0], behs[len(behs) // 2], behs[-1]]
     if os.environ.get("VERIF_CORRUPT"):
         import copy
@@ -61,9 +62,8 @@ def run(ctx):
     ctx.absorb(gr, label="C45 replay")
     ctx.assumptions += [
         "bounded model: 2 groups, rules a=m, b=a, c=m{k=v} in 7 configurations, 2 (simulation 3) input series, <=3 reloads, 6 ops exhaustively",
-        "timestamps are wall-clock ms >= 2 ms apart, engine lookback 1 ms; group intervals 10 ms (started instances) / 1 h (instances replaced before their first slot)",
+        "timestamps are wall-clock ms >= 2 ms apart, engine lookback 1 ms; group intervals 10 ms (300 ms for six instances removed before their first slot)",
         "sequential rule evaluation only; the removed-group cleanup runs before any other step",
-        "NoOrphan is checked with the KF-C45-1 disjunct (group removed before the first slot of its current instance)",
     ]
     return ctx.finish(rule="one behaviour per class (configuration, group, input, previous results, written series) of the exhaustive run + simulated "
                            "walks; each evaluation / cleanup compares the samples stored at that time", exhaustive=False)
